@@ -166,6 +166,13 @@ def build_cases(tier):
                     if _nested_ok(et, a, b):
                         pp.append((a, b))
                 cases.append(mk("NESTED", et, "direct", SHAPES["direct"], pp))
+    # chains whose intermediate results exceed 2^53 (exact integer arithmetic and double arithmetic differ)
+    big = ["9007199254740992", "10000000000000000", "94906267", "94906266", "3", "35", "1", "1000", "4294967296"]
+    bigpairs = [(a, b) for a in big for b in big]
+    for et in ("({A} + {B}) - {A}", "({A} * {B}) % 1000", "({A} * {A}) - ({B} * {B})", "({A} + 1) - {A} + {B}", "({A} ** 3) % ({B} + 7)", "({A} * {B} + 1) - {A} * {B}", "({A} * {B}) // 1 if False else ({A} * {B}) - {B}"):
+        pp = [(a, b) for a, b in bigpairs if _big_ok(et, a, b)]
+        for sn in ("direct", "var1", "var2"):
+            cases.append(mk("NESTED-BIG", et, sn, SHAPES[sn], pp))
     # list subscripts with constant index
     for n in (1, 2, 3, 5, 7):
         fam = "SUBSCR" if n < 6 else "W-LIST6+"  # run-time index into a list of >= 6 elements: finding F-01e
@@ -199,6 +206,19 @@ def build_cases(tier):
             seen.add(c["key"])
             out.append(c)
     return out
+
+
+def _big_ok(et, a, b):
+    """double-arithmetic evaluation stays finite and every modulus is positive"""
+    try:
+        v = eval(et.format(A=float(a), B=float(b)), {"__builtins__": {}}, {})
+        if "%" in et:
+            m = eval(et.split("%")[1].strip().format(A=float(a), B=float(b)), {"__builtins__": {}}, {})
+            if not (m > 0):
+                return False
+        return v == v and abs(v) < 1e300
+    except Exception:  # noqa: BLE001
+        return False
 
 
 def _nested_ok(et, a, b, lo=None, hi=None, integer=False):
